@@ -91,6 +91,13 @@ structure Entry where
   owner : Id
   deriving DecidableEq, Repr, Inhabited
 
+/-- what the main thread sees when it looks a job up in `jobs_pending` -/
+inductive GuardSt where
+  | idle     -- pending, not launched
+  | running  -- launched, completion not handled yet
+  | gone     -- not pending (completed, or never inserted)
+  deriving DecidableEq, Repr, Inhabited
+
 /-- One thing `handle_success(id)` does after `complete_one` / `mark_also_completed`. -/
 inductive Effect where
   /-- `self.add(work)` -/
@@ -100,6 +107,9 @@ inductive Effect where
   | rewrite (id : Id) (a : Access) (must : Bool)
   /-- `update_be_glyph_work` on a glyph that does not emit to binary: decrement counters, complete without running -/
   | skip (id : Id)
+  /-- the code branched on the state of job `id` and found it in state `st` (an assertion: it changes nothing,
+      and the model does not admit it in any other state). The unmodified workload.rs has no such branch. -/
+  | guard (id : Id) (st : GuardSt)
   deriving DecidableEq, Repr, Inhabited
 
 /-- The source-dependent part: the jobs `Workload::new` creates and what each delivery does. -/
@@ -264,10 +274,16 @@ def State.skip (s : State) (id : Id) : Option State :=
       (ctrDecAll s.counters (s.counterDiscs id)).bind fun cs =>
         ({ s with counters := cs, skipped := id :: s.skipped }).complete id
 
+def State.guardSt (s : State) (id : Id) : GuardSt :=
+  match s.entry? id with
+  | none => .gone
+  | some e => if e.running then .running else .idle
+
 def State.applyEffect (s : State) : Effect → Option State
   | .add j => s.insertJob j
   | .rewrite id a must => s.rewrite id a must
   | .skip id => s.skip id
+  | .guard id st => if s.guardSt id = st then some s else none
 
 def State.applyEffects (s : State) : List Effect → Option State
   | [] => some s
@@ -344,6 +360,7 @@ def explain (sc : Script) (s : State) : Event → String
               | .add j => s!"effect add {j.id.show} fails (id already pending)"
               | .rewrite k _ _ => s!"effect rewrite {k.show}: has to be pending"
               | .skip k => s!"effect skip {k.show} fails (running / counters / completion)"
+              | .guard k _ => s!"effect guard {k.show}: the job is in a different state in the model"
         go s1 (sc.effects id)
 
 end Fontc.Sched
